@@ -194,4 +194,19 @@ theorem uuidFromBytes (b : List UInt8) (h : b.length < 2^63) :
     exact List.take_of_length_le (by omega)
   · simp [e]
 
+/-! ### `UUID.String` (array literal of offsets, constant hex table, range loop with computed store indices) against `Uuid.print` -/
+
+theorem hex_hi : ∀ b : BitVec 8, Char.ofNat (([48#8, 49#8, 50#8, 51#8, 52#8, 53#8, 54#8, 55#8, 56#8, 57#8, 97#8, 98#8, 99#8, 100#8, 101#8,
+    102#8] : List (BitVec 8))[b.toNat >>> 4]?.getD 0#8).toNat = Uuid.hexDigit (b.toNat / 16) := by decide
+theorem hex_lo : ∀ b : BitVec 8, Char.ofNat (([48#8, 49#8, 50#8, 51#8, 52#8, 53#8, 54#8, 55#8, 56#8, 57#8, 97#8, 98#8, 99#8, 100#8, 101#8,
+    102#8] : List (BitVec 8))[b.toNat &&& 15]?.getD 0#8).toNat = Uuid.hexDigit (b.toNat % 16) := by decide
+
+/-- `UUID.String()` (the offsets table, the hex digits, the four hyphens) is the model's `Uuid.print`, every 16-byte UUID -/
+theorem string (b0 b1 b2 b3 b4 b5 b6 b7 b8 b9 b10 b11 b12 b13 b14 b15 : BitVec 8) :
+    (Gen.Uuid.UUID_String [b0, b1, b2, b3, b4, b5, b6, b7, b8, b9, b10, b11, b12, b13, b14, b15]).map (fun c => Char.ofNat c.toNat)
+      = Uuid.print ([b0, b1, b2, b3, b4, b5, b6, b7, b8, b9, b10, b11, b12, b13, b14, b15].map UInt8.ofBitVec) := by
+  simp [Gen.Uuid.UUID_String, Gen.Uuid.UUID_String_loop1, Uuid.print, Uuid.hexBytes, Uuid.hexByte]
+  repeat' apply And.intro
+  all_goals first | exact hex_hi _ | exact hex_lo _
+
 end GenTie.C19
